@@ -25,7 +25,11 @@ RULE = ('generator x operand widths x parameters x operand values: kogge_stone, 
         'at least one operand is non-zero.')
 ASSUMPTIONS = [
     'int(math.ceil(math.log(k, 2))) is modelled as the exact ceil(log2 k) (true for the operand counts used)',
-    'pyrtl.Simulation computes the documented semantics of the primitive gates (property C01)',
+    'pyrtl.Simulation computes the documented semantics of the primitive gates (property C01); the exhaustive '
+    'small-width sweeps are simulated with pyrtl.FastSimulation for speed (property C02), every other design '
+    'with pyrtl.Simulation',
+    'exhaustive bounds: operand pairs <= 5 bits (quick) / 6 (thorough), operand triples <= 3 / 4 bits, '
+    'sequential multipliers <= 3 / 5 bits; above that boundary + seeded random operand values',
     'sequential multipliers: operands are held stable and start is low between two start pulses '
     '(the protocol of the property); other stimuli are compared with the model only',
     'direct calls of wallace_reducer/dada_reducer on arbitrary column profiles are compared with the '
@@ -535,17 +539,17 @@ class Collector(object):
             self.tie[key] = (size, what, replay)
 
 
-# model columns: index of the as-is model and of the alternative ("repaired") variant per generator
+# model columns: index of the model of record and of the alternative (pre-fix) variant per generator
 def model_columns(kind, ngens):
-    """gi -> (column of the model as the code is today, column of the repaired variant or None)"""
+    """gi -> (column of the model as the code is today, column of the pre-fix variant or None)"""
     m = {gi: (gi, None) for gi in range(ngens)}
     if kind == 'add2':
-        m[0] = (0, 7)            # kogge_stone: carry-in folded into generate bit 0
+        m[0] = (0, 7)            # kogge_stone: pre-fix = cin not in the prefix tree
     elif kind == 'mul2':
-        m[6] = (6, 7)            # signed_tree_multiplier: full-width magnitude
+        m[6] = (6, 7)            # signed_tree_multiplier: pre-fix = magnitude without its top bit
     elif kind == 'tri':
         for a in range(3):
-            m[a] = (a, 15 + a)   # carrysave_adder: no raise on width 1
+            m[a] = (a, 15 + a)   # carrysave_adder: pre-fix = slice structure, raises on width 1
     return m
 
 
@@ -617,7 +621,7 @@ def compare_comb(ctx, col, job, res, model, variants):
                      'result_bitwidth': ilen})
                 ctx.count('spec_failures', sig)
                 nbad += 1
-        # ---- tie: implementation vs Coq model (as the code is today, else the repaired variant)
+        # ---- tie: implementation vs Coq model (the model of record, else the pre-fix variant)
         def agrees(c, with_len):
             if mlens[c] == -1:
                 return raised
@@ -628,9 +632,9 @@ def compare_comb(ctx, col, job, res, model, variants):
             return all(res['rows'][ci][gi] == mrows[ci][c] for ci in range(len(cases)))
         if agrees(asis, True):
             if alt is not None:
-                variants.setdefault(base, set()).add('as-is' if not agrees(alt, False) else 'both')
-        elif alt is not None and agrees(alt, False):
-            variants.setdefault(base, set()).add('repaired')
+                variants.setdefault(base, set()).add('current' if not agrees(alt, True) else 'both')
+        elif alt is not None and agrees(alt, True):
+            variants.setdefault(base, set()).add('pre-fix')
         else:
             first = None
             for ci in range(len(cases)):
@@ -746,8 +750,12 @@ def run(ctx):
             compare_comb(ctx, col, job, res, model, variants)
     for base, vs in sorted(variants.items()):
         ctx.count('model_variant_matched', '%s:%s' % (base, '+'.join(sorted(vs))))
-        if 'repaired' in vs and ('as-is' in vs):
-            ctx.model_mismatch('%s matches the as-is model on some widths and the repaired model on others' % base, {})
+        if 'pre-fix' in vs and 'current' in vs:
+            ctx.model_mismatch('%s matches the current model on some widths and the pre-fix model on others' % base, {})
+        if 'pre-fix' in vs:
+            ctx.notes.append('%s in /repo behaves like the PRE-FIX model variant (see the SWITCH POINT comments in '
+                             'coq/theories/Lib/Adders.v / Mult.v); the exactness theorem of the model of record '
+                             'does not describe it' % base)
     ctx.notes.append('timing: %d designs; PyRTL build+simulate %.1fs, Coq model evaluation %.1fs, compare %.1fs' % (
         len(jobs), t1 - t0, t2 - t1, time.time() - t2))
     for sig, (size, what, replay) in sorted(col.spec.items()):
